@@ -75,6 +75,12 @@ func Complete(code CodeBuffer, ev *eval.Evaler, cfg Config) (*Result, error) {
 		if err == errNoCompletion {
 			continue
 		}
+		if ctx.interval.From == ctx.interval.To {
+			// An empty interval is an insertion point. It must be where the
+			// cursor is: the leaf node found from the cursor can extend beyond
+			// it, for instance when the cursor is inside a run of spaces.
+			ctx.interval = range0(code.Dot)
+		}
 		rawItems = cfg.Filterer(ctx.name, ctx.seed, rawItems)
 		sort.Slice(rawItems, func(i, j int) bool {
 			return rawItems[i].String() < rawItems[j].String()
